@@ -117,6 +117,7 @@ class Contract:
     local_types: Dict[str, Ty] = field(default_factory=dict)  # declared types of locals that start as untyped empties (set(), dict(), OrderedDict())
     fresh_result: bool = False  # the returned object is newly allocated (proved as an obligation, used for distinctness at call sites)
     init_fields: Optional[Callable] = None  # __init__ contracts: (ctx) -> {field: initial value}; used for parallel allocation
+    mutates_args: Tuple[str, ...] = ()  # keyword arguments whose container the callee changes in place (its `apply` stores the new value back; loops havoc the variable)
     init_frame: bool = False  # constructors: "only the new object's entries of the `modifies` fields change" -- an obligation of the body, a fact at call sites
     body_select: Optional[Callable] = None  # region contract: (FunctionDef) -> the statements (a suffix of the real body) that are executed; the parameters are
     #                                         then the values of the same-named variables at the region's entry, constrained by `requires`
